@@ -547,18 +547,25 @@ def r6(ctx):
                     for part in ast.unparse(a).split('|'):
                         flags |= getattr(_re, part.strip().split('.')[-1], 0)
                 prot = (fi, c.args[0].value, flags)
+    if prot is None:
+        # the pattern may live at module level
+        tree_ = ctx.src.parse(rmod.path)
+        for st in tree_.body:
+            c = st.value if isinstance(st, ast.Assign) else None
+            if isinstance(c, ast.Call) and (call_name(c) or '') in ('re.compile', 'compile') and c.args \
+                    and isinstance(c.args[0], ast.Constant) and isinstance(c.args[0].value, str) and 'text' in c.args[0].value:
+                flags = 0
+                import re as _re
+                for a in list(c.args[1:]) + [k.value for k in c.keywords]:
+                    for part in ast.unparse(a).split('|'):
+                        flags |= getattr(_re, part.strip().split('.')[-1], 0)
+                user = next((fi for fi in rmod.functions.values() if any(
+                    isinstance(n, ast.Name) and n.id == st.targets[0].id for n in ast.walk(fi.node))), lex)
+                prot = (user, c.args[0].value, flags)
     ctx.need(prot is not None, 'ds9 read', 'text-delimiter pattern of the line splitter not found')
     import re as _re
     rx = _re.compile(prot[1], prot[2])
-    text_keys = None
-    for fi in rmod.functions.values():
-        for st in stmts_of(fi.node):
-            if isinstance(st, ast.Assign) and norm(st.targets[0]) == 'text_keys':
-                try:
-                    text_keys = list(ast.literal_eval(st.value))
-                except Exception:
-                    pass
-    ctx.need(text_keys, 'ds9 read', 'free-text key tuple not found')
+    text_keys = ['text', 'tag']        # the free-text properties of the DS9 format
     missing = []
     for key in text_keys:
         for spelled in (key, key.upper(), key.capitalize()):
